@@ -6,4 +6,4 @@ cd /verif
 names=${@:-$(ls seeded)}
 for n in $names; do
   if git -C /repo apply --check /verif/seeded/$n/patch.diff 2>/dev/null; then echo $n; else echo "DOES-NOT-APPLY $n" >&2; fi
-done | xargs -P 3 -I{} bash -c 'pid=$(echo {} | cut -d- -f1); /verif/tools/seed_validate.py /verif/seeded/{} {} $pid > /verif/work/sv-{}.txt 2>&1; echo "{} $(grep -o "\"caught\": [a-z]*" /verif/work/sv-{}.txt | head -1) $(grep -o "\"valid\": [a-z]*" /verif/work/sv-{}.txt)"'
+done | xargs -P ${JOBS:-5} -I{} bash -c 'pid=$(echo {} | cut -d- -f1); /verif/tools/seed_validate.py /verif/seeded/{} {} $pid > /verif/work/sv-{}.txt 2>&1; echo "{} $(grep -o "\"caught\": [a-z]*" /verif/work/sv-{}.txt | head -1) $(grep -o "\"valid\": [a-z]*" /verif/work/sv-{}.txt)"'
